@@ -140,8 +140,8 @@ fn fam_divide(r: &mut Rng) -> String {
 
 fn fam_nan(r: &mut Rng) -> String {
     let v = if r.chance(2, 3) { r.pick(&["x", "t.a", "t[i]", "a.b.c", "x.y[1]", "t[1][2]"]).to_string() } else { operand(r) };
-    let op = *r.pick(&["==", "~=", "==", "~=", "<", ">=", "+"]);
-    let n = match r.below(8) {
+    let op = *r.pick(&["==", "~=", "==", "~=", "==", "~=", "<", ">=", "+"]);
+    let n = match r.below(10) {
         0 => "(0/0)".to_owned(),
         1 => format!("{}/{}", zero(r), zero(r)),
         2 => format!("{} / {}", anynum(r), anynum(r)),
@@ -225,11 +225,11 @@ fn fam_ctc(r: &mut Rng) -> String {
 }
 
 fn fam_typecheck(r: &mut Rng) -> String {
-    let f = *r.pick(&["type", "type", "type", "typeof", "foo", "t.type", "(type)", "type2"]);
+    let f = *r.pick(&["type", "type", "type", "type", "type", "type", "typeof", "typeof", "foo", "t.type", "(type)", "type2"]);
     let a = operand(r);
-    let s = *r.pick(&["\"number\"", "'number'", "[[number]]", "(\"number\")", "y", "nil", "\"a\" .. \"b\""]);
-    let op = *r.pick(&["==", "==", "==", "~=", "<"]);
-    let e = match r.below(10) {
+    let s = *r.pick(&["\"number\"", "\"number\"", "'number'", "'string'", "[[number]]", "[==[nil]==]", "(\"number\")", "y", "nil", "\"a\" .. \"b\""]);
+    let op = *r.pick(&["==", "==", "==", "==", "==", "~=", "<"]);
+    let e = match r.below(16) {
         0 => format!("{f}({a}) {op} {s}"),
         1 => format!("{f}({a} {op} {s}, 1)"),
         2 => format!("{f}(1, {a} {op} {s})"),
